@@ -223,6 +223,8 @@ type ICMPInfo struct {
 	IPPair IPPair
 	// WrappedPacketID is the packet ID from the wrapped IP payload
 	WrappedPacketID uint16
+	// WrappedProtocol is the IP protocol (IPv6: next header) of the wrapped IP packet
+	WrappedProtocol layers.IPProtocol
 	// ICMPPair is the source/dest IPs from the wrapped IP payload
 	ICMPPair IPPair
 	// Payload is the payload from within the wrapped IP packet, typically containing the first 8 bytes of TCP/UDP.
@@ -270,6 +272,7 @@ func (p *FrameParser) GetICMPInfo() (ICMPInfo, error) {
 		icmpInfo := ICMPInfo{
 			IPPair:          ipPair,
 			WrappedPacketID: innerPkt.Id,
+			WrappedProtocol: innerPkt.Protocol,
 			ICMPPair:        getIPv4Pair(&innerPkt),
 			Payload:         slices.Clone(innerPkt.Payload),
 		}
@@ -291,6 +294,7 @@ func (p *FrameParser) GetICMPInfo() (ICMPInfo, error) {
 		icmpInfo := ICMPInfo{
 			IPPair:          ipPair,
 			WrappedPacketID: wrappedPktID,
+			WrappedProtocol: innerPkt.NextHeader,
 			ICMPPair:        getIPv6Pair(&innerPkt),
 			Payload:         slices.Clone(innerPkt.Payload),
 		}
